@@ -122,66 +122,25 @@ def check_c13(prop, tier, seed, sd, t0):
 # C19: the merge planner
 
 def check_c19(prop, tier, seed, sd, t0):
-    mcs = [vlib.model_check(sd, 'mergeplan', 'MergePlan.tla', 'MC_mergeplan.cfg', 900)]
+    mc = [('mergeplan', 'MergePlan.tla', 'MC_mergeplan_q.cfg' if tier == 'quick' else 'MC_mergeplan.cfg', 1500)]
     if tier == 'thorough':
-        mcs.append(vlib.model_check(sd, 'mergeplan-live', 'MergePlan.tla', 'MC_mergeplan_live.cfg', 1800))
-    for m in mcs:
-        log('model checked %s: %d states' % (m['cfg'], m['states']))
-    probe = go_build(sd, './cmd/planprobe', 'planprobe')
-    tf = os.path.join(sd, 'plan.ndjson')
-    p = subprocess.run(['timeout', '1800', probe, '-out', tf, '-tier', tier, '-seed', str(seed)], stdout=subprocess.PIPE, stderr=subprocess.STDOUT, text=True)
-    if p.returncode != 0:
-        tail = p.stdout[-3000:]
-        if 'mergeplan' in tail and 'panic' in tail:
-            d = save_simple_replay(prop, seed, {'trace.ndjson': tf}, dict(note='planprobe died inside the planner', log=tail))
-            log('VIOLATION property=%s replay=%s' % (prop, d))
-            return 1
-        raise Inconclusive('planprobe failed: ' + tail)
-    res = run_trace_spec(sd, 'mergeplan', 'MergePlanTrace.tla', 'MergePlanTrace.cfg', tf, extra_modules=('MergePlan.tla',), timeout=2400)
-    if not res['ok']:
-        raise Inconclusive('MergePlanTrace did not consume the trace:\n' + res['tail'])
-    viols = [v for v in res['viols'] if v[0].startswith('C19_')]
-    divs = [v for v in res['viols'] if v[0].startswith('DIV_')]
-    notes = [v for v in res['viols'] if v[0].startswith('NOTE_')]
-    lines = open(tf).read().splitlines()
-    calls = sum(1 for l in lines if '"ev":"plan"' in l or '"ev":"hplan"' in l)
-    hists = sum(1 for l in lines if '"ev":"hreset"' in l)
-    rc = 0
-    if viols:
-        c, line, h = viols[0]
-        ctx = lines[max(0, line - 12):line]
-        d = os.path.join(VERIF, 'replays', prop, '%d-%s' % (int(time.time()), seed))
-        os.makedirs(d, exist_ok=True)
-        open(os.path.join(d, 'trace.ndjson'), 'w').write('\n'.join(ctx) + '\n')
-        json.dump(dict(property=prop, clause=c, line=line, kind='c19', event=json.loads(lines[line - 1])), open(os.path.join(d, 'meta.json'), 'w'), indent=1)
-        log('VIOLATION property=%s replay=%s' % (prop, d))
-        log('  %s at planner call on line %d: %s' % (c, line, lines[line - 1][:600]))
-        rc = 1
-    elif divs:
-        raise Inconclusive('the integer transcription of CalcBudget or the history binding disagrees with the code (%s)' % divs[:3])
-    distinct = len({l for l in lines if '"ev":"plan"' in l or '"ev":"hplan"' in l})
-    cov = dict(states=sum(m['states'] for m in mcs), transitions=sum(m['transitions'] for m in mcs),
-               traces_validated_against_impl=calls, samples=[json.loads(x) for x in lines[:3]] + [json.loads(x) for x in lines if '"ev":"hplan"' in x][:2],
-               evaluations=calls, distinct_nontrivial=distinct, histories=hists, no_progress_task_notes=len(notes),
-               rule='real mergeplan.Plan calls: (a) lists of 2..4 (thorough: 5) segments over the boundary size set {0,1,floor,floor+1,max/2-1,max/2,max/2+1,max-1,max,max+5} x '
-                    'deleted fraction {none, half, all} for three option sets (quick: every 7th list), (b) random lists of 2..1700 segments with duplicate sizes around the default '
-                    'options, (c) arrive/delete/plan/execute histories and run-to-convergence loops in which the real planner plans and the probe executes on sizes only; '
-                    'every call is checked by TLC against PlanOK (membership, disjointness, size bound, eligibility, width, budget post-condition with the integer Budget, '
-                    'determinism) and every history against convergence and rest-within-budget; distinct = distinct logged calls',
-               exhaustive=False, model_configs=mcs)
-    vlib.write_evidence(prop, tier, seed, 'model_checking', cov,
-                        ['the integer transcription of CalcBudget is exact for integer options and sizes < 2^31 (compared with the Go value on every call: DIV_budget_transcription)',
-                         'the float scoring only chooses among plans; it is not modelled'], time.time() - t0, len(viols))
-    log('%s %s: %d model states, %d planner calls in %d histories validated, %d violations, %d no-progress notes'
-        % (prop, tier, cov['states'], calls, hists, len(viols), len(notes)))
-    return rc
+        mc.append(('mergeplan-live', 'MergePlan.tla', 'MC_mergeplan_live.cfg', 1800))
+    return probe_check(prop, tier, seed, sd, t0, './cmd/planprobe', mc, 'MergePlanTrace.tla', 'MergePlanTrace.cfg', ('MergePlan.tla',), 'C19_',
+                       'real mergeplan.Plan calls: (a) lists of 2..4 segments over the boundary size set {0,1,floor,floor+1,max/2-1,max/2,max/2+1,max-1,max,max+5} x deleted fraction '
+                       '{none, half, all} for three option sets (quick: every 7th list; thorough: all lists of <= 4 and every 11th of 5), (b) random lists of 2..1700 segments with duplicate '
+                       'sizes around the default options, (c) arrive/delete/plan/execute histories and run-to-convergence loops in which the real planner plans and the probe executes on sizes '
+                       'only; every call is checked by TLC against PlanOK (membership, disjointness, size bound, eligibility, width, budget post-condition with the integer Budget, determinism, '
+                       'termination watchdog) and every history against convergence within |segments| rounds and rest-within-budget; no-op tasks are counted as notes; distinct = distinct logged calls',
+                       ['the integer transcription of CalcBudget is exact for integer options and sizes < 2^31 (compared with the Go value on every call: DIV_budget_transcription)',
+                        'the float scoring only chooses among plans; it is not modelled'],
+                       unit='plan"', boundaries=('"ev":"plan"', '"ev":"hreset"'), note_prefix='NOTE_')
 
 
 # --------------------------------------------------------------------------
 # probe-based checks: a Go probe runs the real engine on generated inputs and logs
 # (input, real result); TLC evaluates the specification's value for every line
 
-def probe_check(prop, tier, seed, sd, t0, probe_pkg, mc, trace_module, trace_cfg, extra_modules, prefix, rule, assumptions, unit='ev":"q"', extra_cov=None, selfcontained=False):
+def probe_check(prop, tier, seed, sd, t0, probe_pkg, mc, trace_module, trace_cfg, extra_modules, prefix, rule, assumptions, unit='ev":"q"', extra_cov=None, selfcontained=False, boundaries=('"ev":"corpus"', '"ev":"reset"'), note_prefix=None):
     mcs = []
     for name, module, cfg, timeout in mc:
         r = vlib.model_check(sd, name, module, cfg, timeout)
@@ -205,7 +164,7 @@ def probe_check(prop, tier, seed, sd, t0, probe_pkg, mc, trace_module, trace_cfg
     lines = open(tf).read().splitlines()
     chunks, cur = [], []
     for l in lines:
-        if (selfcontained or '"ev":"corpus"' in l or '"ev":"reset"' in l) and len(cur) >= 4000:
+        if (selfcontained or any(b in l for b in boundaries)) and len(cur) >= 4000:
             chunks.append(cur)
             cur = []
         cur.append(l)
@@ -253,7 +212,7 @@ def probe_check(prop, tier, seed, sd, t0, probe_pkg, mc, trace_module, trace_cfg
     if real:
         (c, line, k), _ = real[0]
         j = line - 1
-        while not selfcontained and j > 0 and '"ev":"corpus"' not in lines[j] and '"ev":"reset"' not in lines[j]:
+        while not selfcontained and j > 0 and not any(b in lines[j] for b in boundaries):
             j -= 1
         d = os.path.join(VERIF, 'replays', prop, '%d-%s' % (int(time.time()), seed))
         os.makedirs(d, exist_ok=True)
@@ -266,7 +225,8 @@ def probe_check(prop, tier, seed, sd, t0, probe_pkg, mc, trace_module, trace_cfg
         raise Inconclusive('specification and harness disagree about the input binding: %s' % divs[:3])
     n = sum(1 for l in lines if unit in l)
     distinct = len({l for l in lines if unit in l})
-    cov = dict(states=states + sum(m['states'] for m in mcs), transitions=trans + sum(m['transitions'] for m in mcs), traces_validated_against_impl=n,
+    notes = [v for v in viols if note_prefix and v[0].startswith(note_prefix)]
+    cov = dict(states=states + sum(m['states'] for m in mcs), transitions=trans + sum(m['transitions'] for m in mcs), traces_validated_against_impl=n, notes=len(notes),
                samples=[json.loads(lines[0])] + [json.loads(l) for l in lines if unit in l][:3], evaluations=n, distinct_nontrivial=distinct,
                rule=rule, exhaustive=False, model_configs=mcs, lines=len(lines))
     if extra_cov:
